@@ -76,7 +76,9 @@ class RepetitionPulseTemplate(LoopPulseTemplate, ParameterConstrainer, Measureme
         self._register(registry=registry)
 
     def with_repetition(self, repetition_count: Union[int, str, ExpressionScalar]) -> 'PulseTemplate':
-        if self.identifier:
+        if self.identifier or self.measurement_declarations:
+            # the measurements of this repetition are taken once per execution of it: merging the counts would
+            # declare them only once for all repetitions
             return RepetitionPulseTemplate(self, repetition_count)
         else:
             return RepetitionPulseTemplate(
